@@ -2,6 +2,10 @@ import SSVerif.Props.C04
 open SSVerif.Align
 #print axioms C04_populate_structure
 #print axioms C04_backtrace_partition
+#print axioms C04_children_are_blocks
 #print axioms C04_boundaries_preserved
 #print axioms C04_scores_add_up
 #print axioms C04_alignOKB_iff
+#print axioms C04_step_constants
+#print axioms C04_alignStep_tokens_local_partial
+#print axioms C04_alignStep_inv_start
